@@ -250,10 +250,19 @@ def decode_vpk_dir(path: str) -> dict[str, bytes]:
     return out
 
 
+def scratch_parent():
+    """Parent for the per-case mkdtemp(): a RAM-backed tmpfs when the host has one (the ext4 /tmp of this sandbox
+    needs ~80 ms to create and remove a 25-file tree, tmpfs 1.5 ms); otherwise the tempfile default."""
+    for cand in ('/dev/shm',):
+        if os.path.isdir(cand) and os.access(cand, os.W_OK | os.X_OK):
+            return cand
+    return None
+
+
 class Scratch:
     """One temporary directory per case; everything opened is closed and the directory removed."""
     def __init__(self) -> None:
-        self.dir = tempfile.mkdtemp(prefix='verif_c19_')
+        self.dir = tempfile.mkdtemp(prefix='verif_c19_', dir=scratch_parent())
         self.closers = []
         self.n = 0
 
